@@ -395,3 +395,49 @@ def bounded(tier, seed):
             if ok and r != b"Basic " + base64.b64encode(s.encode("utf-8")):
                 b.fail("parse_upstream_auth.value", {"spec": s}, repr(r))
     return b
+
+
+# ---------------------------------------------------------------------------------------------
+# The addon trusts request.scheme == "http" to mean "plain HTTP": inside a tunnel / in transparent mode the scheme of a
+# request is what the *connection* is (TLS or not), never what the client wrote into an absolute-form target or :scheme.
+
+HS = "mitmproxy.proxy.layers.http:HttpStream"
+
+
+@scenario("transparent.scheme_follows_server_connection", functions=[HS + ".state_wait_for_request_headers"])
+def s_scheme(vc):
+    from mitmproxy.proxy.layers.http import HTTPMode
+    from props.httpstream import mk_stream, mk_request, mk_headers, ev, fields_of
+    client_scheme = vc.case("scheme_written_by_client", [b"", b"http", b"https", b"ftp"])
+    server_tls = vc.sym_bool("server_tls")
+    end_stream = vc.case("end_stream", [False, True])
+    req = mk_request(vc, headers=mk_headers(vc, [(b"host", b"example.com")]), scheme=client_scheme, authority=b"example.com" if client_scheme else b"",
+                     host="example.com" if client_scheme else "", port=80 if client_scheme else 0)
+    st, flow, client, server = mk_stream(vc, "state_wait_for_request_headers", "state_uninitialized", request=req, live=False, server_open=False, mode=HTTPMode.transparent)
+    server.tls = server_tls
+    port = vc.sym_int("dst_port", lo=1, hi=65535)
+    server.address = ("93.184.216.34", port)
+    del fields_of(vc, st)["flow"]
+    vc.summary("mitmproxy.proxy.layers.http:validate_request", lambda v, mode, request, flag: v.lift(None))
+    vh = lambda v, message: v.lift(None)
+    vc.summary("mitmproxy.net.http.validate:validate_headers", vh)
+    vc.summary("mitmproxy.proxy.layers.http:validate_headers", vh)
+    seen = []
+
+    def on_yield(cmd):
+        if is_cmd(cmd, "HttpRequestHeadersHook"):
+            d = cmd.flow.request.data
+            seen.append((d.scheme, d.host, d.port))        # what the addons (UpstreamAuth.requestheaders) see
+
+    out = vc.call(HS + ".state_wait_for_request_headers", st, ev(vc, "RequestHeaders", request=req, end_stream=end_stream, replay_flow=None), on_yield=on_yield)
+    vc.ensure("total", out.ok)
+    if not out.ok:
+        return
+    vc.ensure("requestheaders_hook_once", len(seen) == 1)
+    if len(seen) != 1:
+        return
+    scheme, host, rport = seen[0]
+    want = b"https" if vc.branch(server_tls) else b"http"
+    vc.ensure("at_hook.scheme_is_the_connections", vc.eq(scheme, want))
+    vc.ensure("at_hook.destination_is_the_connections", And(vc.eq(host, "93.184.216.34"), rport == port))
+    vc.ensure("after.scheme_is_the_connections", vc.eq(req.data.scheme, want))
